@@ -95,6 +95,45 @@ def check_reserved_constants(ctx, m, rule: str, consequence: str) -> None:
     ctx.floor(rule, n_fn, 5, "functions reading class-level collections of FlowIR")
 
 
+def check_segment_tests(ctx) -> None:
+    """R8: a reserved name is compared with a whole path segment, never as a text prefix ('data' is a prefix of 'data-prep')."""
+    rule = "C09.R8-reserved-names-match-whole-segments"
+    RESERVED = ("SpecialFolders", "special_folders", "top_level_folders", "direct_folders", "app_deps", "application_dependencies")
+    n_fn = 0
+    hits = []
+    for rel in (FLOWIR, GRAPH):
+        m = ctx.repo.module(rel)
+        for q, f in m.functions.items():
+            if q.count(".") > 1:
+                continue
+            if not any(isinstance(x, (ast.Name, ast.Attribute)) and (getattr(x, "id", None) in RESERVED or getattr(x, "attr", None) in RESERVED) for x in ast.walk(f)):
+                continue
+            n_fn += 1
+            for c in source.calls_in(f, include_nested=True):
+                if last_attr(c) in ("startswith", "endswith") and c.args:
+                    arg = c.args[0]
+                    chain = [arg] + ([v for v in match.assigned_value(f, arg.id)] if isinstance(arg, ast.Name) else [])
+                    mentions = any(isinstance(x, (ast.Name, ast.Attribute)) and (getattr(x, "id", None) in RESERVED or getattr(x, "attr", None) in RESERVED)
+                                   for v in chain for x in ast.walk(v))
+                    # a separator appended to every name makes the prefix test a segment test
+                    with_sep = any(isinstance(x, ast.BinOp) and isinstance(x.op, ast.Add) and any(
+                        (isinstance(y, ast.Constant) and y.value in ("/",)) or (isinstance(y, ast.Attribute) and y.attr == "sep") for y in (x.left, x.right))
+                        for v in chain for x in ast.walk(v)) or any(isinstance(x, ast.Call) and call_name(x) == "os.path.join" for v in chain for x in ast.walk(v))
+                    if mentions and not with_sep:
+                        hits.append((q, c))
+    for (q, c) in hits:
+        ctx.ob(rule, c, False,
+               "%s tests a reference against the reserved names with %s(..): a text prefix, not a path segment - a component called 'data-prep', "
+               "'input.v2', 'binning' or 'configure' is taken for the reserved folder its name begins with, so 'data-prep/out.csv:ref' is classified "
+               "as a path while 'stage0.data-prep/out.csv:ref' names the component" % (q, last_attr(c)),
+               construct="%s: %s <- whole segment" % (q, short(c, 60)))
+    if not hits:
+        ctx.ob(rule, ctx.repo.module(FLOWIR).tree, True,
+               "no classifier compares a reference with the reserved names as a text prefix (%d functions inspected)" % n_fn,
+               construct="reserved names are compared with whole path segments")
+    ctx.floor(rule, n_fn, 5, "functions that consult the reserved folder names")
+
+
 def check_method_alternation(ctx) -> None:
     """R7: 'copy' is a prefix of 'copyout': an alternation of the reference methods must try the longer one first (or be closed by a
     boundary), otherwise ':copyout' is read as ':copy' and the rest of the word is left over."""
@@ -152,6 +191,9 @@ def run(ctx) -> None:
                                            "expand_potential_component_reference never expands variables, reserved first segments without stage prefix, or producers containing a path separator")
     ctx.rule("C09.R3-reserved-sets", "on every path the collection a classifier consults includes FlowIR.SpecialFolders, the caller's folders and "
              "(where the function takes them) the application-dependency names; application dependencies are mapped to their names")
+    ctx.rule("C09.R8-reserved-names-match-whole-segments", "where a reference is compared with the reserved folder names (SpecialFolders, top-level "
+             "folders, application dependencies) the comparison is a membership / equality test of a whole path segment, never "
+             "startswith()/endswith() on the text (unless a separator is appended to every name)")
     ctx.rule("C09.R7-method-alternation-longest-first", "a regular-expression alternation built from the list of reference methods tries the longer "
              "of two methods that share a prefix first (sorted by length, descending) or closes the group with a boundary")
     ctx.rule("C09.R6-reserved-constants-immutable", "the class-level collections of FlowIR (SpecialFolders, ...) are never mutated in place, "
@@ -355,6 +397,7 @@ def run(ctx) -> None:
            "application dependencies are compared without application_dependency_to_name")
 
     check_method_alternation(ctx)
+    check_segment_tests(ctx)
     check_reserved_constants(ctx, m, "C09.R6-reserved-constants-immutable",
                              "the folders of one workflow stay reserved for every workflow loaded later in the process, so the same reference "
                              "string is classified differently depending on what was loaded before")
